@@ -62,6 +62,19 @@ def rs_abort(k: int, pre: int) -> dict:
     return rsn(rts)
 
 
+def rs_loops(k: int, tag: str) -> dict:
+    """k routines compiled from `while ($X == 1) { a(); if (debug) { break_loop; } b(); } c(); end;` (ops named after `tag`), which
+    decompile to `forever { if … { a(); if (debug) { break_loop; } else { b(); continue; } } else { break_loop; } }`: the loop
+    writers keep a stack of open loops while they write the body; a break_loop asks the innermost one where the loop ends"""
+    rts, off = [], 0
+    for i in range(k):
+        n = off
+        rts.append([op(n, "Jump", [n + 4]), op(n + 1, "a_" + tag, [i]), op(n + 2, "BranchDebug", [1, n + 5]), op(n + 3, "b_" + tag),
+                    op(n + 4, "Branch", [{"c": "$X"}, 1, n + 1]), op(n + 5, "c_" + tag), op(n + 6, "End")])
+        off = n + 7
+    return rsn(rts)
+
+
 def rs_switch(k: int, pre: int) -> dict:
     """k routines [p*pre, Switch, Case -> next op, c, End]: no Branch op, so build_and_group_switch_cases queries the join
     of the switch's out-edges before any clear of the new graph"""
